@@ -6,6 +6,7 @@ CONSTANTS
   Cols <- ColsLate
   ClassKinds <- KindsTabText
   ClassX <- XTabText
+  ClassXS <- XSNone
   ClassT <- TTabText
   ClassM <- MTabText
   LowerOf <- LowerTab
